@@ -52,7 +52,7 @@ pub fn prop() -> Prop {
          section 6 + apollo's documented choices). Non-trivial: at least one field error at a Non-Null position or \
          inside a list; distinct by operation + variables + schema + world.",
     )
-    .random("execute", check, |t| dev_scale(if t == Tier::Quick { 300_000 } else { 10_000_000 }), |t| if t == Tier::Quick { 900 } else { 1500 })
+    .random("execute", check, |t| dev_scale(if t == Tier::Quick { 300_000 } else { 6_000_000 }), |t| if t == Tier::Quick { 900 } else { 1500 })
     .text(check_text)
     .assumptions(&[
         "errors are compared by path; the list is checked against the set of field errors of an uncancelled reference execution (subset, no duplicates, every error-made null explained) because the specification allows cancelling siblings after a propagating error and fixes no order of `errors`",
@@ -581,6 +581,34 @@ pub fn evaluate(b: &Built, ctx: &mut Ctx) -> Outcome {
 #[cfg(test)]
 mod tests {
     use super::*;
+
+    /// Generated operations are accepted by apollo's validation (validity by construction is
+    /// calibrated, not assumed), worlds survive render -> parse, and the text replay of a rendered
+    /// case gives the same verdict as the byte case.
+    #[test]
+    fn generated_cases_are_valid_and_replayable() {
+        let mut rejected = 0;
+        let mut built = 0;
+        for i in 0..1500u64 {
+            let bytes = crate::runner::gen_case(7, "C26", 0, i, 900);
+            let Ok(b) = build(&bytes, Tier::Quick) else { continue };
+            built += 1;
+            let mut ctx = Ctx::new(Tier::Quick, false);
+            if compile(&b, &mut ctx).is_err() {
+                rejected += 1;
+                eprintln!("REJECTED:\n{}", b.case.render());
+            }
+            let w = parse_world(&b.world.render()).expect("world parses");
+            assert_eq!(w.render(), b.world.render());
+            let mut c1 = Ctx::new(Tier::Quick, false);
+            let mut c2 = Ctx::new(Tier::Quick, false);
+            let r1 = matches!(evaluate(&b, &mut c1), Outcome::Pass);
+            let r2 = matches!(check_text(&render(&b), &mut c2), Outcome::Pass);
+            assert_eq!(r1, r2, "{}", render(&b));
+        }
+        assert!(built > 1400, "built {built}");
+        assert_eq!(rejected, 0);
+    }
 
     /// Development aid: `cargo test --release c26::tests::explore -- --ignored --nocapture`
     #[test]
